@@ -658,7 +658,7 @@ def judge_response(st):
     cls = exp["cls"]
     sub = exp.get("kind") or ("0x%04x" % exp["code"] if cls == "ERROR" else exp.get("etype")) or ""
     scope = cls + (":" + sub if sub else "") + (":evolving-udt" if st["c"].get("scn") else "")
-    got = decode_case(st["c"], result_metadata_for(exp))
+    got = decode_case(st["c"], result_metadata_for(st["c"]))
     if got[0] == "raised":
         return [("raised", scope, got[1])], {"raised": got[1], "text": got[2]}
     want = expected_fields(st)
@@ -689,9 +689,10 @@ def decode_case(case, result_metadata=None):
         return ("raised", type(ex).__name__, str(ex)[:200])
 
 
-def result_metadata_for(exp):
-    """what the session layer passes as result_metadata for a ROWS answer to an EXECUTE with skip_metadata:
-    the column metadata of the prepared statement = the columns the specification generated"""
-    if exp.get("kind") == "rows" and exp.get("nometa"):
-        return [(text(c["ks"]), text(c["table"]), text(c["name"]), build_type(c["type"])) for c in exp["cols"]]
-    return None
+def result_metadata_for(case):
+    """what the caller hands to decode_message as result_metadata (c.held of WireResponses.tla): None, or the
+    (keyspace, table, name, type class) list of the prepared statement's result columns - possibly empty, possibly stale"""
+    held = case.get("held")
+    if not held:
+        return None
+    return [(text(c["ks"]), text(c["table"]), text(c["name"]), build_type(c["type"])) for c in held[0]]
